@@ -114,12 +114,22 @@ void _cds_lfq_init_rcu(struct cds_lfq_queue_rcu *q,
 static inline
 int _cds_lfq_destroy_rcu(struct cds_lfq_queue_rcu *q)
 {
-	struct cds_lfq_node_rcu *head;
+	struct cds_lfq_node_rcu *head, *node, *next;
 
 	head = rcu_dereference(q->head);
-	if (!(head->dummy && head->next == NULL))
-		return -EPERM;	/* not empty */
-	free_dummy(head);
+	/*
+	 * Concurrent dequeuers may each have appended a dummy node, so
+	 * an empty queue can hold more than one of them: it is empty
+	 * when every remaining node is a dummy.
+	 */
+	for (node = head; node; node = node->next) {
+		if (!node->dummy)
+			return -EPERM;	/* not empty */
+	}
+	for (node = head; node; node = next) {
+		next = node->next;
+		free_dummy(node);
+	}
 	return 0;
 }
 
